@@ -43,6 +43,7 @@ type refResult struct {
 	How     string   // create-rejected | create-conflict | wait
 	Ran     []string // hooks created, in order
 	Skipped int      // selected hooks that must not run because an earlier one failed
+	Deleted bool     // the release was already uninstalled by an earlier step: nothing may happen
 }
 
 var eventOf = map[string]string{"install": "install", "upgrade": "upgrade", "rollback": "rollback", "uninstall": "delete"}
@@ -73,9 +74,37 @@ func normHooks(hooks []hx.HookSpec) []hx.HookSpec {
 	out := make([]hx.HookSpec, len(hooks))
 	for i, h := range hooks {
 		h.Events, h.Policies = norm(h.Events), norm(h.Policies)
+		if h.WeightRaw != "" {
+			h.Weight = decimalWeight(h.WeightRaw)
+		}
 		out[i] = h
 	}
 	return out
+}
+
+// decimalWeight reads a hook-weight annotation the way Helm documents and (on the
+// unchanged tree, strconv.Atoi) does: an optional sign followed by decimal digits,
+// leading zeros included ("010" is ten); anything else - blanks, "0x10", "1e3",
+// an empty string, a number outside the int range - counts as weight 0.
+func decimalWeight(s string) int {
+	neg, d := false, s
+	if strings.HasPrefix(d, "+") || strings.HasPrefix(d, "-") {
+		neg, d = d[0] == '-', d[1:]
+	}
+	if d == "" {
+		return 0
+	}
+	n := 0
+	for _, c := range d {
+		if c < '0' || c > '9' || n > (1<<62)/10 {
+			return 0
+		}
+		n = n*10 + int(c-'0')
+	}
+	if neg {
+		return -n
+	}
+	return n
 }
 
 func refOp(kind string, hooks []hx.HookSpec, disabled bool, f *refFault, present map[string]bool) refResult {
